@@ -31,7 +31,9 @@ pub fn write_module(
     for segment in key.iter() {
         path.push(segment.as_str());
     }
-    path.set_extension("rs");
+    // Append the extension instead of replacing one: a module called `a.b` must not
+    // end up in the same file as the module `a`.
+    path.as_mut_os_string().push(".rs");
 
     let directory_path = path.parent().map(|p| p.to_path_buf()).unwrap_or_default();
     std::fs::create_dir_all(directory_path)?;
